@@ -92,6 +92,26 @@ Second round (blocks marked `x2`; run-time additions in ``lean/PkgModel/PyRx.lea
                top-level ``if not isinstance(p, C): return/raise``; a list bound to fresh values in every branch of a
                top-level ``if`` (or returned by a library function all of whose returns are fresh) counts as owned;
                ``and``/``or`` keep their short circuit whenever an operand contains a lifted action
+Normalisation (x4; `x4_normalise`, applied to the AST before anything else, and `x4_*` methods of ``Fn``): behaviour-preserving
+spellings are mapped to one canonical form so that a harmless refactor regenerates the same (or a trivially convertible) Lean
+definition.  Every rule preserves results, exceptions and evaluation order:
+  N1  ``m[g]`` -> ``m.group(g)`` when local ``m`` is bound once, by a ``match``/``search``/``fullmatch`` call
+  N2  ``xs += e`` -> ``xs.extend(e)`` when every binding of local ``xs`` is a freshly built list (``list.__iadd__`` is ``extend``)
+  N3  ``yield from xs`` (``xs`` a plain local) -> ``for v in xs: yield v`` (consumers only iterate)
+  N4  ``map(str.m, e.split(…))`` -> ``(v.m() for v in e.split(…))``; ``list(map(…))`` -> the list comprehension
+  N5  a call of a private helper *the proofs do not know* (not in ``X4_KNOWN_HELPERS`` / ``SELECTED``), module-level function or
+      method of the caller's class, whose only ``return`` is its last statement, is spliced into the caller when it is the whole
+      right-hand side of a statement (``x = _h(a)``, ``x[k] = _h(a)``, ``return _h(a)``, ``_h(a)``): parameters bound to the
+      arguments in order, locals renamed apart (conditions at ``_inline_helpers``) — extracting / inlining a helper is invisible
+  N6  ``x = a if c else b`` (one plain name as target) -> ``if c: x = a`` / ``else: x = b``
+  N7  ``x = {E for a in A for b in B if c …}`` -> ``x = set()`` and the nested loops adding ``E`` (loop variables renamed apart)
+  sets  ``x in <module-level / class-level set or frozenset of str / int constants>`` -> ``PyRt.contains_set`` on the members in
+        sorted order (hoisting an inline display into a named constant; iteration order of a set is unobservable through ``in``)
+  names renaming a local is invisible already: Lean's ``do`` notation orders the state of a loop by declaration, not by name
+Subset additions of x4: list / tuple displays with starred elements (``[*a, x, *b]``: unpacked left to right into a fresh
+list), oracle methods on a local bound once by an oracle constructor (``p = pathlib.PurePosixPath(x)`` … ``p.is_absolute()``),
+``TABLE[k](a, b)`` and ``k in TABLE`` on a module-level table of callables, ``x = None`` sentinels next to the one binding that
+decides the class of a local, ``PyRt.str_partition`` (one-character separator; defined through ``splitOnMax c 1``).
 Fifth round (blocks marked `x5`; run-time additions in ``lean/PkgModel/PySet.lean``):
   set fields   an instance attribute that ``__init__`` only ever binds to ``frozenset(…)`` / ``set(…)`` (or declares as
                ``set[str]``) is a set: its truth value, ``len``, ``a | b``, ``a == b``, ``frozenset(a)``, ``sorted(a)`` go to set
@@ -616,6 +636,347 @@ X7_MESSAGE_ANN = ["email", "message", "Message"]
 
 
 # ---------------------------------------------------------------------------------------------- one function
+# ---------------------------------------------------------------------------------------------- x4: normalisation
+# Behaviour-preserving spellings of the same Python code are mapped to one canonical AST before translation, so that a
+# harmless refactor regenerates the same Lean definition.  Every rule preserves results, exceptions and evaluation order:
+#   N1  `m[g]`  ->  `m.group(g)`            when local `m` is bound once, by a `match`/`search`/`fullmatch` call
+#                                            (`re.Match.__getitem__` is defined as `group`)
+#   N2  `xs += e`  ->  `xs.extend(e)`      when every binding of local `xs` in the function is a freshly built list
+#                                            (`list.__iadd__` is `extend`: same iteration of `e`, same TypeError)
+#   N3  `yield from xs` (xs a plain local)  ->  `for v in xs: yield v`   (every consumer of the translated generators only
+#                                            iterates; no `send`/`throw`, and the value of the `yield from` is unused)
+#   N4  `map(str.m, e.split(…))`  ->  `(v.m() for v in e.split(…))`, and `list(map(…))` -> the list comprehension
+#                                            (`str.split` returns exact `str` objects, for which `str.m(v)` is `v.m()`)
+_MATCH_CALLS = {"match", "search", "fullmatch"}
+
+
+def _always_fresh_list(fn, name):
+    if name in [a.arg for a in fn.args.args + fn.args.kwonlyargs] or (fn.args.vararg and fn.args.vararg.arg == name):
+        return False
+    binds = [n for n in _walk_scope(fn.body) if name in _targets_of(n) and not isinstance(n, ast.AugAssign)]
+    if not binds:
+        return False
+    for b in binds:
+        if not isinstance(b, (ast.Assign, ast.AnnAssign)) or b.value is None:
+            return False
+        tgts = b.targets if isinstance(b, ast.Assign) else [b.target]
+        if not all(isinstance(t, ast.Name) for t in tgts) or not _is_fresh_list(b.value):
+            return False
+    return True
+
+
+def _bound_once_by_match(fn, name):
+    binds = [n for n in _walk_scope(fn.body) if name in _targets_of(n)]
+    if len(binds) != 1 or not isinstance(binds[0], (ast.Assign, ast.AnnAssign)) or name in [a.arg for a in fn.args.args]:
+        return False
+    v = binds[0].value
+    tgt = binds[0].targets[0] if isinstance(binds[0], ast.Assign) else binds[0].target
+    return isinstance(tgt, ast.Name) and isinstance(v, ast.Call) and isinstance(v.func, ast.Attribute) and v.func.attr in _MATCH_CALLS
+
+
+class _X4Normaliser(ast.NodeTransformer):
+    def __init__(self, fn):
+        self.fn = fn
+
+    def visit_Subscript(self, node):
+        self.generic_visit(node)
+        if isinstance(node.ctx, ast.Load) and isinstance(node.value, ast.Name) and not isinstance(node.slice, ast.Slice) \
+                and _bound_once_by_match(self.fn, node.value.id):                                              # N1
+            new = ast.Call(func=ast.Attribute(value=node.value, attr="group", ctx=ast.Load()), args=[node.slice], keywords=[])
+            return ast.copy_location(new, node)
+        return node
+
+
+    def visit_Expr(self, node):
+        self.generic_visit(node)
+        if isinstance(node.value, ast.YieldFrom) and isinstance(node.value.value, ast.Name):                  # N3
+            self.n = getattr(self, "n", 0) + 1
+            v = f"__yv{self.n}"
+            loop = ast.For(target=ast.Name(id=v, ctx=ast.Store()), iter=node.value.value,
+                           body=[ast.Expr(value=ast.Yield(value=ast.Name(id=v, ctx=ast.Load())))], orelse=[], type_comment=None)
+            return ast.copy_location(loop, node)
+        return node
+
+    def visit_Call(self, node):
+        self.generic_visit(node)
+        def as_genexp(c):
+            if isinstance(c, ast.Call) and isinstance(c.func, ast.Name) and c.func.id == "map" and len(c.args) == 2 and not c.keywords \
+                    and isinstance(c.args[0], ast.Attribute) and isinstance(c.args[0].value, ast.Name) and c.args[0].value.id == "str" \
+                    and isinstance(c.args[1], ast.Call) and isinstance(c.args[1].func, ast.Attribute) and c.args[1].func.attr == "split":
+                self.n = getattr(self, "n", 0) + 1
+                v = f"__mv{self.n}"
+                elt = ast.Call(func=ast.Attribute(value=ast.Name(id=v, ctx=ast.Load()), attr=c.args[0].attr, ctx=ast.Load()), args=[], keywords=[])
+                return elt, [ast.comprehension(target=ast.Name(id=v, ctx=ast.Store()), iter=c.args[1], ifs=[], is_async=0)]
+            return None
+        if isinstance(node.func, ast.Name) and node.func.id == "list" and len(node.args) == 1 and not node.keywords:       # N4
+            g = as_genexp(node.args[0])
+            if g is not None:
+                return ast.copy_location(ast.ListComp(elt=g[0], generators=g[1]), node)
+        g = as_genexp(node)
+        if g is not None:
+            return ast.copy_location(ast.GeneratorExp(elt=g[0], generators=g[1]), node)
+        return node
+
+    def visit_Try(self, node):
+        self.in_try = getattr(self, "in_try", 0) + 1
+        self.generic_visit(node)
+        self.in_try -= 1
+        return node
+
+    def visit_Assign(self, node):
+        self.generic_visit(node)
+        # N7: `x = {E for a in A for b in B if c …}` -> `x = set()` and the nested loops adding `E` (loop variables renamed apart:
+        # a comprehension has a scope of its own)
+        if len(node.targets) == 1 and isinstance(node.targets[0], ast.Name) and isinstance(node.value, ast.SetComp) \
+                and getattr(self, "in_try", 0) == 0 \
+                and all(isinstance(g.target, ast.Name) and not g.is_async for g in node.value.generators):
+            # (not inside a `try`: if the comprehension raised, `x` would be left bound to a partial set)
+            self.n = getattr(self, "n", 0) + 1
+            x = node.targets[0].id
+            ren = {g.target.id: f"__sc{self.n}_{g.target.id}" for g in node.value.generators}
+            import copy
+            body = [ast.Expr(value=ast.Call(func=ast.Attribute(value=ast.Name(id=x, ctx=ast.Load()), attr="add", ctx=ast.Load()),
+                                            args=[_Renamer(ren).visit(copy.deepcopy(node.value.elt))], keywords=[]))]
+            seen = dict(ren)
+            for gi in range(len(node.value.generators) - 1, -1, -1):
+                g = node.value.generators[gi]
+                inner = {k: v for k, v in ren.items() if k in [h.target.id for h in node.value.generators[:gi]]}
+                for c in reversed(g.ifs):
+                    vis = {k: v for k, v in ren.items() if k in [h.target.id for h in node.value.generators[:gi + 1]]}
+                    body = [ast.If(test=_Renamer(vis).visit(copy.deepcopy(c)), body=body, orelse=[])]
+                body = [ast.For(target=ast.Name(id=ren[g.target.id], ctx=ast.Store()), iter=_Renamer(inner).visit(copy.deepcopy(g.iter)),
+                                body=body, orelse=[], type_comment=None)]
+            init = ast.Assign(targets=[ast.Name(id=x, ctx=ast.Store())], value=ast.Call(func=ast.Name(id="set", ctx=ast.Load()), args=[], keywords=[]),
+                              type_comment=None)
+            out = [init] + body
+            for st_ in out:
+                for n_ in ast.walk(st_):
+                    n_.lineno, n_.end_lineno = node.lineno, getattr(node, "end_lineno", node.lineno)
+                    n_.col_offset, n_.end_col_offset = getattr(node, "col_offset", 0), getattr(node, "end_col_offset", 0)
+            return out
+        # N6: `x = a if c else b` -> `if c: x = a` / `else: x = b` (one plain name as target)
+        if len(node.targets) == 1 and isinstance(node.targets[0], ast.Name) and isinstance(node.value, ast.IfExp):
+            mk = lambda v: ast.copy_location(ast.Assign(targets=[ast.Name(id=node.targets[0].id, ctx=ast.Store())], value=v, type_comment=None), node)
+            return ast.copy_location(ast.If(test=node.value.test, body=[mk(node.value.body)], orelse=[mk(node.value.orelse)]), node)
+        return node
+
+    def visit_AugAssign(self, node):
+        self.generic_visit(node)
+        if isinstance(node.op, ast.Add) and isinstance(node.target, ast.Name) and _always_fresh_list(self.fn, node.target.id):   # N2
+            call = ast.Call(func=ast.Attribute(value=ast.Name(id=node.target.id, ctx=ast.Load()), attr="extend", ctx=ast.Load()),
+                            args=[node.value], keywords=[])
+            return ast.copy_location(ast.Expr(value=call), node)
+        return node
+
+
+# N5: inlining of small private helpers.  Extracting a block into a private helper (or inlining one) is the commonest harmless
+# refactor; the proofs know the functions by name, so a helper *they do not know* is spliced back into its caller:
+#   `x = _h(a, b)` / `x[k] = _h(a, b)` / `return _h(a, b)` / `_h(a, b)` (a statement whose whole right-hand side is the call)
+# becomes: the parameters bound to the arguments in order (an argument that is a plain name / constant is substituted when the
+# helper never rebinds that parameter), the helper's body with its locals renamed apart, its final `return e` turned into
+# the original statement with `e` in place of the call.  Conditions: `_h` is a module-level function of the same module whose
+# name starts with `_`, is not one of X4_KNOWN_HELPERS (functions with an equivalence theorem of their own) nor SELECTED, has no
+# decorator, no `*args`/`**kwargs`/keyword-only parameters, does not call itself, and its only `return` is its last top-level
+# statement (so control flow needs no encoding); no `yield`, `global`, `nonlocal`, nested `def`/`class`/`lambda`, `try`, `with`;
+# no global or builtin name it uses is a local of the caller.  Also for `self._m(…)` when `_m` is a private method of the caller's
+# class that no class of the module overrides.
+X4_KNOWN_HELPERS = {
+    "_parse_letter_version", "_is_not_suffix", "_version_join", "_pad_version", "_cmpkey", "_version_nodot",
+    "_py_interpreter_range", "_abi3_applies", "_is_threaded_cpython", "_get_config_var", "_cpython_abis", "_version_split",
+    "_coerce_version", "_normalize_string", "_generic_abi", "_mac_arch", "_mac_binary_formats", "_parse_glibc_version",
+    "_glibc_version_string", "_normalize_extra_values", "_format_marker", "_eval_op", "_normalize", "_get_env",
+    "_evaluate_markers", "_repair_python_full_version", "_parse_marker_op", "_parse_marker_var", "_parse_marker_item",
+    "_parse_marker_atom", "_parse_marker", "_parse_full_marker", "_parse_version_many", "_parse_specifier",
+    "_parse_extras_list", "_parse_extras", "_parse_requirement_marker", "_parse_requirement_details", "_parse_requirement",
+    "_parse_keywords", "_parse_project_urls", "_parse_local_version", "_parse_project_urls", "_get_payload",
+    "Specifier._get_operator",          # evaluated at translation time (PARTIAL_EVAL_GUARDS)
+    "ELFFile._read",                    # x6: a run-time primitive of its own (`struct.unpack` on the file)
+}
+
+
+def _inlinable_method(owner, attr, globs, caller_name):
+    """N5 for `self._m(…)`: a private method of the caller's class that no class of the module overrides"""
+    if owner is None or not attr.startswith("_") or attr.startswith("__") or attr == caller_name:
+        return None
+    f = inspect.getattr_static(owner, attr, None)
+    if not inspect.isfunction(f) or f.__globals__ is not globs:
+        return None
+    qual = f"{owner.__name__}.{attr}"
+    if any(qual == sel[2] or sel[2].endswith("." + attr) for sel in SELECTED) or qual in X4_KNOWN_HELPERS:
+        return None
+    for c in globs.values():
+        if inspect.isclass(c) and c is not owner and issubclass(c, owner) and attr in c.__dict__:
+            return None
+    return _helper_node(f, attr)
+
+
+def _inlinable_helper(name, globs, caller_name):
+    """the FunctionDef of helper `name` when it may be spliced into a caller, else None"""
+    f = globs.get(name)
+    if not name.startswith("_") or name.startswith("__") or name in X4_KNOWN_HELPERS or name == caller_name \
+            or not inspect.isfunction(f) or f.__globals__ is not globs or f.__name__ != name:
+        return None
+    if any(name == sel[2] for sel in SELECTED):
+        return None
+    return _helper_node(f, name)
+
+
+def _helper_node(f, name):
+    try:
+        node = ast.parse(textwrap.dedent(inspect.getsource(f))).body[0]
+    except (OSError, SyntaxError, TypeError):
+        return None
+    if not isinstance(node, ast.FunctionDef) or node.decorator_list:
+        return None
+    a = node.args
+    if a.vararg or a.kwarg or a.kwonlyargs or a.posonlyargs:
+        return None
+    body = list(node.body)
+    if body and isinstance(body[0], ast.Expr) and isinstance(body[0].value, ast.Constant) and isinstance(body[0].value.value, str):
+        body = body[1:]
+    if not body or not isinstance(body[-1], ast.Return) or body[-1].value is None:
+        return None
+    for n in ast.walk(ast.Module(body=body[:-1], type_ignores=[])):
+        if isinstance(n, (ast.Return, ast.Yield, ast.YieldFrom, ast.Global, ast.Nonlocal, ast.FunctionDef, ast.ClassDef,
+                          ast.Lambda, ast.AsyncFunctionDef, ast.Await, ast.Try, ast.With)):
+            return None
+    for n in ast.walk(node):
+        if isinstance(n, ast.Call) and isinstance(n.func, ast.Name) and n.func.id == name:
+            return None
+        if isinstance(n, (ast.Lambda,)) or (isinstance(n, (ast.Yield, ast.YieldFrom))):
+            return None
+    node.body = body
+    return node
+
+
+class _Renamer(ast.NodeTransformer):
+    def __init__(self, mapping):
+        self.mapping = mapping          # name -> replacement expression (ast) or new name (str)
+
+    def visit_Name(self, node):
+        r = self.mapping.get(node.id)
+        if r is None:
+            return node
+        if isinstance(r, str):
+            return ast.copy_location(ast.Name(id=r, ctx=node.ctx), node)
+        import copy
+        return ast.copy_location(copy.deepcopy(r), node)
+
+
+def _inline_helpers(fn, globs, counter=None, depth=0, owner=None):
+    """splice unknown private helpers into the statements of `fn` (see N5)"""
+    import copy
+    counter = counter if counter is not None else [0]
+
+    def call_of(st):
+        """(call, rebuild) when the statement's whole right-hand side is a call of a plain name"""
+        if isinstance(st, ast.Assign) and isinstance(st.value, ast.Call):
+            return st.value, lambda e: ast.copy_location(ast.Assign(targets=st.targets, value=e, type_comment=None), st)
+        if isinstance(st, ast.AnnAssign) and isinstance(st.value, ast.Call):
+            return st.value, lambda e: ast.copy_location(ast.AnnAssign(target=st.target, annotation=st.annotation, value=e, simple=st.simple), st)
+        if isinstance(st, ast.Return) and isinstance(st.value, ast.Call):
+            return st.value, lambda e: ast.copy_location(ast.Return(value=e), st)
+        if isinstance(st, ast.Expr) and isinstance(st.value, ast.Call):
+            return st.value, lambda e: ast.copy_location(ast.Expr(value=e), st)
+        return None, None
+
+    assigned_in_caller = {n for s in _walk_scope(fn.body) for n in _targets_of(s)}
+    caller_locals = assigned_in_caller | {a.arg for a in fn.args.args + fn.args.kwonlyargs}
+
+    def splice(st):
+        call, rebuild = call_of(st)
+        if call is None or depth > 2:
+            return None
+        if any(isinstance(a, ast.Starred) for a in call.args) or any(k.arg is None for k in call.keywords):
+            return None
+        pos_args = list(call.args)
+        if isinstance(call.func, ast.Name) and call.func.id not in caller_locals:
+            h = _inlinable_helper(call.func.id, globs, fn.name)
+        elif isinstance(call.func, ast.Attribute) and isinstance(call.func.value, ast.Name) and fn.args.args \
+                and call.func.value.id == fn.args.args[0].arg and call.func.value.id not in assigned_in_caller:
+            h = _inlinable_method(owner, call.func.attr, globs, fn.name)          # `self._m(…)`
+            pos_args = [call.func.value] + pos_args
+        else:
+            return None
+        if h is None:
+            return None
+        params = [a.arg for a in h.args.args]
+        defaults = dict(zip(params[len(params) - len(h.args.defaults):], h.args.defaults))
+        bound = {}
+        if len(pos_args) > len(params):
+            return None
+        for p_, a in zip(params, pos_args):
+            bound[p_] = a
+        for k in call.keywords:
+            if k.arg not in params or k.arg in bound:
+                return None
+            bound[k.arg] = k.value
+        # keyword arguments are evaluated after the positional ones, in source order: keep that order
+        order = [p_ for p_, _ in zip(params, pos_args)] + [k.arg for k in call.keywords]
+        for p_ in params:
+            if p_ not in bound:
+                if p_ not in defaults or not isinstance(defaults[p_], ast.Constant):
+                    return None
+                bound[p_] = defaults[p_]
+                order.append(p_)
+        assigned = {n for s in _walk_scope(h.body) for n in _targets_of(s)}
+        loopvars = {t.id for n in ast.walk(h) if isinstance(n, (ast.For, ast.comprehension)) for t in ast.walk(n.target) if isinstance(t, ast.Name)}
+        # a global / builtin the helper refers to must not be shadowed by a local of the caller once the body is spliced in
+        free = {n.id for st_ in h.body for n in ast.walk(st_) if isinstance(n, ast.Name)} - assigned - loopvars - set(params)
+        if free & caller_locals:
+            return None
+        counter[0] += 1
+        tag = f"__h{counter[0]}_"
+        mapping = {}
+        pre = []
+        for p_ in order:
+            a = bound[p_]
+            simple = isinstance(a, ast.Constant) or (isinstance(a, ast.Name))
+            if simple and p_ not in assigned and p_ not in loopvars:
+                mapping[p_] = a
+            else:
+                mapping[p_] = tag + p_
+                pre.append(ast.copy_location(ast.Assign(targets=[ast.Name(id=tag + p_, ctx=ast.Store())], value=a, type_comment=None), st))
+        for v in (assigned | loopvars) - set(params):
+            mapping[v] = tag + v
+        body = [_Renamer(mapping).visit(copy.deepcopy(s)) for s in h.body]
+        ret = body.pop()
+        out = pre + body + [rebuild(ret.value)]
+        for s in out:
+            for n in ast.walk(s):
+                ast.copy_location(n, st) if not hasattr(n, "lineno") else None
+                n.lineno, n.end_lineno = st.lineno, getattr(st, "end_lineno", st.lineno)
+                n.col_offset, n.end_col_offset = getattr(st, "col_offset", 0), getattr(st, "end_col_offset", 0)
+        return out
+
+    def walk_block(stmts):
+        out = []
+        for st in stmts:
+            for field in ("body", "orelse", "finalbody"):
+                if hasattr(st, field) and isinstance(getattr(st, field), list) and not isinstance(st, (ast.FunctionDef, ast.ClassDef)):
+                    setattr(st, field, walk_block(getattr(st, field)))
+            if isinstance(st, ast.Try):
+                for hd in st.handlers:
+                    hd.body = walk_block(hd.body)
+            rep = splice(st)
+            out.extend(rep if rep is not None else [st])
+        return out
+
+    before = counter[0]
+    fn.body = walk_block(fn.body)
+    if counter[0] != before and depth < 2:
+        _inline_helpers(fn, globs, counter, depth + 1, owner)          # helpers of helpers
+    return fn
+
+
+def x4_normalise(fn, globs=None, owner=None):
+    if globs is not None:
+        fn = _inline_helpers(fn, globs, owner=owner)
+    fn = _X4Normaliser(fn).visit(fn)
+    ast.fix_missing_locations(fn)
+    return fn
+
+
 class Fn:
     def __init__(self, ctx, lean_name, pyfunc, owner_cls=None):
         self.ctx, self.lean_name, self.pyfunc, self.owner_cls = ctx, lean_name, pyfunc, owner_cls
@@ -624,6 +985,9 @@ class Fn:
         self.node = tree.body[0]
         if not isinstance(self.node, ast.FunctionDef):
             raise Unsupported("not a plain function definition")
+        _qn = pyfunc.__qualname__.split(".")
+        _owner = pyfunc.__globals__.get(_qn[0]) if len(_qn) == 2 and inspect.isclass(pyfunc.__globals__.get(_qn[0])) else None
+        self.node = x4_normalise(self.node, pyfunc.__globals__, _owner)   # x4: behaviour-preserving spellings -> one canonical AST
         self.globals = pyfunc.__globals__
         self.tmp = 0
         self.lines = []
@@ -683,6 +1047,9 @@ class Fn:
             self._class_guard.add(key)
             try:
                 found = [n for n in _walk_scope(self.node.body) if e.id in _targets_of(n)]
+                # x4: besides `x = None` sentinels (an attribute of None is AttributeError here as well)
+                found = [b for b in found if not (isinstance(b, ast.Assign) and len(b.targets) == 1 and isinstance(b.targets[0], ast.Name)
+                                                  and isinstance(b.value, ast.Constant) and b.value.value is None)] or found
                 if len(found) == 1 and isinstance(found[0], (ast.Assign, ast.AnnAssign)):
                     st = found[0]
                     tgt = st.targets[0] if isinstance(st, ast.Assign) else st.target
@@ -1510,6 +1877,8 @@ class Fn:
     def _in(self, l, r, negate):
         lv = self.val(l)          # Python evaluates the left operand first
         special = self.x3_in(lv, r)
+        if special is None:
+            special = self.x4_in_constant(lv, r)
         if special is not None:
             t = f"(← {special})"
             return f"!{t}" if negate else t
@@ -1517,6 +1886,34 @@ class Fn:
         rv = self.val(r)
         t = f"(← PyRt.contains {rv} {lv})"
         return f"!{t}" if negate else t
+
+    # --- x4: `x in <named constant collection>` — a module-level or class-level set / frozenset of str / int constants
+    # (hoisting an inline display to a named constant is a common harmless refactor).  Members are emitted sorted: the
+    # iteration order of a set is not observable through `in`, and `==` of str / int members has no effect.
+    def x4_constant_set(self, r):
+        v = _MISSING
+        if isinstance(r, ast.Name) and r.id not in self.locals and r.id not in self.bound_stack():
+            v = self.globals.get(r.id, _MISSING)
+        elif isinstance(r, ast.Attribute):
+            c = None
+            if isinstance(r.value, ast.Name) and r.value.id not in self.locals and r.value.id not in self.bound_stack() \
+                    and inspect.isclass(self.globals.get(r.value.id)):
+                c = self.globals[r.value.id]
+            else:
+                c = self.static_class(r.value)
+                if c is not None and any(self.ctx.lookup(d, r.attr) is not self.ctx.lookup(c, r.attr) for d in self.ctx.subclasses(c)):
+                    c = None                     # a tracked subclass overrides it
+            if c is not None:
+                v = self.ctx.lookup(c, r.attr)
+        if isinstance(v, (set, frozenset)) and v and all(type(x) in (str, int) for x in v):
+            return sorted(v, key=lambda x: (type(x).__name__, x))
+        return None
+
+    def x4_in_constant(self, lv, r):
+        members = self.x4_constant_set(r)
+        if members is None:
+            return None
+        return "PyRt.contains_set (PyVal.tuple [" + ", ".join(lconst(x) for x in members) + f"]) {lv}"
 
     def is_pure(self, e) -> bool:
         saved_tmp, saved_lines = self.tmp, list(self.lines)
@@ -1544,7 +1941,19 @@ class Fn:
             return self.name(e)
         if isinstance(e, ast.Tuple) or isinstance(e, ast.List):
             if any(isinstance(x, ast.Starred) for x in e.elts):
-                raise Unsupported("starred element in a display")
+                # x4: `[a, *xs, b]` — elements evaluated and unpacked left to right into a fresh list (`tuple(...)` of it
+                # for a tuple display)
+                if any(isinstance(x, ast.Starred) and isinstance(x.value, ast.Starred) for x in e.elts):
+                    raise Unsupported("nested star in a display")
+                acc = "(PyVal.list [])"
+                for x in e.elts:
+                    if isinstance(x, ast.Starred):
+                        acc = f"(← PyRt.list_extend {acc} {self.val(x.value)})"
+                    else:
+                        acc = f"(← PyRt.list_append {acc} {self.val(x)})"
+                if isinstance(e, ast.Tuple):
+                    return False, f"PyRt.tuple_ {acc}"
+                return False, "pure " + acc
             items = ", ".join(self.val(x) for x in e.elts)
             k = "tuple" if isinstance(e, ast.Tuple) else "list"
             return True, f"(PyVal.{k} [{items}])"
@@ -3032,6 +3441,17 @@ class Fn:
                     obj = getattr(obj, part, None)
                 if inspect.isclass(obj):
                     return obj.__name__
+        # x4: a local bound exactly once, by such a constructor call (`p = pathlib.PurePosixPath(x)` … `p.is_absolute()`)
+        if isinstance(e, ast.Name) and e.id in self.locals and e.id not in self.params() and e.id not in self.bound_stack():
+            binds = [n for n in _walk_scope(self.node.body) if e.id in _targets_of(n)]
+            # … other bindings may only be `<local> = None` (a sentinel: a method call on None is AttributeError in both worlds)
+            binds = [b for b in binds if not (isinstance(b, ast.Assign) and len(b.targets) == 1 and isinstance(b.targets[0], ast.Name)
+                                              and isinstance(b.value, ast.Constant) and b.value.value is None)]
+            if len(binds) == 1 and isinstance(binds[0], (ast.Assign, ast.AnnAssign)) and binds[0].value is not None:
+                tgt = binds[0].targets[0] if isinstance(binds[0], ast.Assign) else binds[0].target
+                if isinstance(tgt, ast.Name) and (not isinstance(binds[0], ast.Assign) or len(binds[0].targets) == 1) \
+                        and isinstance(binds[0].value, ast.Call):
+                    return self.x3_ext_class(binds[0].value)
         return None
 
     def x3_table(self, e):
@@ -3050,6 +3470,9 @@ class Fn:
         t = self.x3_table(r)
         if t is not None:
             return f'PyLic.tbl_has "{t}" {lv}'
+        if isinstance(r, ast.Name) and r.id not in self.locals and r.id not in self.bound_stack() and self.x3_fn_table(r.id) is not None:
+            get, _ = self.x3_fn_table_defs(r.id, 2)                      # x4: `k in TABLE` for a table of callables
+            return f"(do let __f ← {get} {lv}; pure (!(PyRt.isNone __f)))"
         if self.x3_is_dict_expr(r):
             return f"PyRt.dict_contains {self.val(r)} {lv}"
         if isinstance(r, ast.Name) and r.id not in self.locals and r.id not in self.bound_stack() and isinstance(self.globals.get(r.id), dict):
@@ -3188,6 +3611,15 @@ class Fn:
                 return self.expr(e.args[1])
             if hasattr(self, "owned2") and self.x3_ipf_arg(e) is not None and id(e) not in self._ipf_ok:
                 raise Unsupported("a call that updates a local in place inside a larger expression")
+        # x4: `TABLE[k](a, b)` on a module-level table of callables: the look-up (KeyError for a missing key), then the call
+        if isinstance(f, ast.Subscript) and isinstance(f.value, ast.Name) and f.value.id not in self.locals \
+                and f.value.id not in self.bound_stack() and not isinstance(f.slice, ast.Slice) and not kws \
+                and not any(isinstance(a, ast.Starred) for a in e.args) and self.x3_fn_table(f.value.id) is not None:
+            get, call = self.x3_fn_table_defs(f.value.id, len(e.args))
+            t = self.fresh("f")
+            key = self.val(f.slice)
+            args = "".join(" " + self.val(a) for a in e.args)
+            return False, f'(do let {t} ← {get} {key}; if PyRt.isNone {t} then throw "KeyError" else {call} {t}{args})'
         if isinstance(f, ast.Name) and f.id in self.locals and f.id not in self.bound_stack():
             tab = self.x3_local_fn_table(f.id)
             if tab is not None:
